@@ -29,13 +29,19 @@ func init() {
 			"(CRLF form, stuffed dots, terminator). Declared SIZE > limit => MAIL 5xx; lo > limit => not 2xx and store unchanged; hi <= limit " +
 			"with a well-formed header block => 250 and stored; in between don't care. After every refusal a small transaction on the same " +
 			"connection must be acknowledged (and stored when it fits the limit). Non-trivial and distinct by (limit, back end, size class, " +
-			"shape, SIZE variant, outcome).",
+			"shape, SIZE variant, outcome). Overlap stream (after seeded change C06-7): 3-8 sessions open on ONE server (limit in {100,1000,65536,1000000}, mem/file, " +
+			"GOMAXPROCS 1 or the child's 4 by case index), every message filled with a token no other message carries; in 1-3 rounds 1-3 within-limit " +
+			"deliveries are held inside Deliver by a BeforeMessageStored listener while the other sessions transmit within-limit and oversized messages " +
+			"(one by one or in parallel goroutines), then released; lo > limit => not 2xx, hi <= limit => 250; afterwards every stored message must equal, " +
+			"behind the three trace-header lines, what its accepted session transmitted, and no token of a refused message may occur in any stored source " +
+			"or metadata, nor in any file of the file store's directory.",
 		Assumptions: []string{
 			"the acceptance side is only asserted for messages that start with a well-formed header block (Deliver may answer 451 otherwise)",
 			"sizes between lo and hi of the limit are don't-care, so a pure off-by-one in the comparison is not decidable",
 			"non-numeric SIZE values: the MAIL reply is observed, not judged",
 			"a follow-up MAIL answered 503 is retried after RSET (a server may keep the failed transaction open); only a follow-up that still fails is a violation",
 			"sessions run through VerifServeConn on an in-memory net.Conn",
+			"overlap stream: the listener that holds a delivery returns nil (no opinion), so the address policy decides exactly as without it; only DATA-phase refusals are produced there",
 		},
 		MinObs: func(tier string) map[string]int64 {
 			f := int64(1)
@@ -44,7 +50,9 @@ func init() {
 			}
 			m := map[string]int64{"probes": 1500 * f, "must_refuse_data": 300 * f, "must_accept": 200 * f, "dont_care_band": 50 * f,
 				"mail_size_over_limit": 150 * f, "refused_at_data": 300 * f, "refused_at_mail": 150 * f, "accepted_and_stored": 200 * f,
-				"followups_stored": 300 * f, "followups_usable_only": 30 * f, "distinct_nontrivial": 300}
+				"followups_stored": 300 * f, "followups_usable_only": 30 * f, "distinct_nontrivial": 300,
+				"overlap_cases": 70 * f, "overlap_held_deliveries": 120 * f, "overlap_refused_while_held": 150 * f, "overlap_accepted_while_held": 40 * f,
+				"overlap_stored_identical": 250 * f, "overlap_parallel_rounds": 30 * f, "overlap_disk_files_scanned": 100 * f}
 			for _, l := range limits {
 				for _, b := range []string{"mem", "file"} {
 					m[fmt.Sprintf("config:%d/%s", l, b)] = 50 * f
@@ -64,6 +72,7 @@ func run(c *fw.Ctx) {
 	n := c.N(4500, 40000)
 	c.Cases("conn", n, func(i int, r *fw.Rand) { runConn(c, i, r) })
 	c.Cases("starttls", c.N(40, 400), func(i int, r *fw.Rand) { runStartTLS(c, i, r) })
+	c.Cases("overlap", c.N(80, 640), func(i int, r *fw.Rand) { runOverlap(c, i, r) })
 }
 
 // probe is one test message with its SIZE declaration.
